@@ -394,7 +394,7 @@ pub fn run_check(spec: &CheckSpec, args: &Args) -> i32 {
             "faults_injected": faults,
             "probes": a.probes,
             "transition_coverage": a.transitions.len(),
-            "transitions": a.transitions,
+            "transition_tuples": a.transitions,
             "runs_not_quiesced": a.not_quiesced,
             "components_real": spec.real,
             "components_stub": spec.stubs,
